@@ -215,10 +215,11 @@ pub fn selftest_fast() -> Result<usize, String> {
         let mut q = (1u64 << 20) / (2 * n as u64) * (2 * n as u64) + 1;
         while found < 3 {
             q += 2 * n as u64;
-            let Some(psi) = min_primitive_root_2n_cyclic(n, q) else { continue };
+            // primality first: the root search scans all of [2, q) on a composite modulus
             if !(2..q).take_while(|d| d * d <= q).all(|d| q % d != 0) {
                 continue;
             }
+            let Some(psi) = min_primitive_root_2n_cyclic(n, q) else { continue };
             found += 1;
             let ptab = power_table(psi, n, q);
             let a: Vec<u64> = (0..n as u64).map(|i| (i * i * 7919 + 13 * i + q - 5) % q).collect();
